@@ -91,13 +91,14 @@ def s_obstacle(tier):
         st.tuples(st.just("query"), st.lists(st.integers(0, 9), min_size=1, max_size=4)),
         st.tuples(st.sampled_from(["tr-obstacle", "tr-prediction", "tr-scenario"]), motion),
         st.tuples(st.just("set-trajectory"), new_traj),
-        st.tuples(st.just("set-shape"), gg.any_shape(centered=True)),
+        st.tuples(st.just("set-shape"), st.one_of(gg.any_shape(centered=True), gg.any_shape(centered=False))),
         st.tuples(st.just("append-state"), translation(20), st.integers(1, 3)),
         st.tuples(st.just("update-prediction"), st.one_of(st.none(), new_traj, gs.occupancies_simple())),
         st.tuples(st.just("update-initial-state"), gg.exact_state("InitialState", 0), st.integers(1, 4),
                   st.one_of(st.none(), gs.signal_recipe(0)), st.one_of(st.none(), st.lists(st.integers(1, 9), max_size=3))),
     )
-    return st.fixed_dictionaries({"shape": gg.any_shape(centered=True), "init": init, "traj": new_traj,
+    return st.fixed_dictionaries({"shape": st.one_of(gg.any_shape(centered=True), gg.any_shape(centered=True),
+                                                     gg.any_shape(centered=False)), "init": init, "traj": new_traj,
                                   "ops": st.lists(op, min_size=2, max_size=14)})
 
 
